@@ -155,8 +155,22 @@ def closeReason (k : Kind) (remote : Bool) : String :=
   | .h1 => if remote then reasonUpstreamReset else reasonStreamConnectionTermination
   | .pp => reasonStreamConnectionFailed
 
+/-- outcome of the dial a `NewStream` call makes when it finds no idle connection: established, refused / failed
+(`api.ConnectFailed`) or timed out (`api.ConnectTimeout`). Both failures make `NewStream` answer `ConnectionFailure`;
+they differ in the event the pool's connection-event handler sees. -/
+inductive Dial | ok | refused | timeout
+  deriving DecidableEq, Repr
+
+def Dial.fails : Dial → Bool
+  | .ok => false
+  | _ => true
+
+def Dial.isTimeout : Dial → Bool
+  | .timeout => true
+  | _ => false
+
 inductive Op
-  | newStream (connectFails : Bool)
+  | newStream (dial : Dial)
   | response (i : Nat) (connClose : Bool)   -- connClose: HTTP/1 `Connection: close`
   | garbage (i : Nat)
   | localReset (i : Nat)
@@ -170,7 +184,7 @@ inductive Op
   | extDec
   deriving Repr
 
-inductive Res | none | ok (c : Nat) | overflow | connFail
+inductive Res | none | ok (c : Nat) | overflow | connFail (timeout : Bool)
   deriving DecidableEq, Repr
 
 /-- lease client `c`: requests breaker, new stream registered on it. -/
@@ -179,13 +193,15 @@ def lease (s : State) (c : Nat) : State :=
            stream := fun k => if k = s.nStreams then { conn := c } else s.stream k }
 
 /-- `getAvailableClient` / `GetActiveClient` after the breaker: (state, leased client or failure). -/
-def acquire (s : State) (connectFails : Bool) : State × Res :=
+def acquire (s : State) (d : Dial) : State × Res :=
   match s.kind with
   | .h1 =>
     if s.idle.isEmpty then
       let t := s.total + h1NewDelta
       if h1CanNew s.maxConn t then
-        if connectFails then ({ s with total := t + h1ConnFailDelta }, .connFail)
+        -- a failed dial: whatever the failure branch and the handler of the dial's event do to the counter
+        -- (a `Close()` of a connection that was never established delivers no event)
+        if d.fails then ({ s with total := t + h1DialFailDelta d.isTimeout }, .connFail d.isTimeout)
         else ({ s with total := t, nClients := s.nClients + 1,
                        client := fun k => if k = s.nClients then {} else s.client k }, .ok s.nClients)
       else ({ s with total := t + h1OverflowDelta }, .overflow)
@@ -195,7 +211,7 @@ def acquire (s : State) (connectFails : Bool) : State × Res :=
   | .pp =>
     if s.idle.isEmpty then
       if ppCanNew s.maxConn s.total then
-        if connectFails then (s, .connFail)
+        if d.fails then ({ s with total := s.total + ppDialFailDelta d.isTimeout }, .connFail d.isTimeout)
         else ({ s with total := s.total + ppNewDelta, nClients := s.nClients + 1,
                        client := fun k => if k = s.nClients then {} else s.client k }, .ok s.nClients)
       else (s, .overflow)
@@ -205,15 +221,15 @@ def acquire (s : State) (connectFails : Bool) : State × Res :=
 
 /-- `NewStream`. With `breakerFirst` the requests breaker is consulted before a client is acquired; the other
 order (the code before the repair) acquires first and drops the client on refusal. -/
-def newStream (s : State) (connectFails : Bool) : State × Res :=
+def newStream (s : State) (d : Dial) : State × Res :=
   if breakerFirst s.kind then
     if canCreate s.maxReq s.reqCur then
-      match acquire s connectFails with
+      match acquire s d with
       | (s1, .ok c) => (lease s1 c, .ok c)
       | (s1, r) => (s1, r)
     else (s, .overflow)
   else
-    match acquire s connectFails with
+    match acquire s d with
     | (s1, .ok c) => if canCreate s.maxReq s.reqCur then (lease s1 c, .ok c) else (s1, .overflow)
     | (s1, r) => (s1, r)
 
@@ -269,7 +285,7 @@ def reasonLetter (r : String) : String :=
   else if r = reasonUpstreamReset then "K" else "?"
 
 def Res.render : Res → String
-  | .none => "-" | .ok c => s!"ok{c}" | .overflow => "ovf" | .connFail => "cf"
+  | .none => "-" | .ok c => s!"ok{c}" | .overflow => "ovf" | .connFail t => if t then "ct" else "cf"
 
 def renderIdle (s : State) : String :=
   ",".intercalate (s.idle.map (fun c =>
